@@ -310,11 +310,24 @@ def type_tables(maps_tree):
     d = find_assign(maps_tree, "VARIABLE_TYPE_CAST_MAP")
     if not isinstance(d, ast.Dict):
         raise Untranslatable("VARIABLE_TYPE_CAST_MAP is not a dict literal")
+    def tuple_elts(node, depth=0):
+        """elements of a tuple given as a literal, as a module-level name bound once to such a tuple, or as a `+` of those"""
+        if isinstance(node, ast.Tuple):
+            return list(node.elts)
+        if isinstance(node, ast.Name) and depth < 4:
+            bound = [n for n in maps_tree.body if isinstance(n, (ast.Assign, ast.AnnAssign))
+                     and any(isinstance(t, ast.Name) and t.id == node.id for t in (n.targets if isinstance(n, ast.Assign) else [n.target]))]
+            if len(bound) != 1:
+                fail(node, "tuple name %s is not bound exactly once at module level" % node.id)
+            return tuple_elts(bound[0].value, depth + 1)
+        if isinstance(node, ast.BinOp) and isinstance(node.op, ast.Add) and depth < 4:
+            return tuple_elts(node.left, depth + 1) + tuple_elts(node.right, depth + 1)
+        fail(node, "VARIABLE_TYPE_CAST_MAP entry is not a tuple of types")
     for key, val in zip(d.keys, d.values):
-        if not (isinstance(key, ast.Name) and key.id in KIND_OF_CLASS and isinstance(val, ast.Tuple)):
+        if not (isinstance(key, ast.Name) and key.id in KIND_OF_CLASS):
             fail(key, "VARIABLE_TYPE_CAST_MAP entry shape")
         py, npy = [], []
-        for e in val.elts:
+        for e in tuple_elts(val):
             if isinstance(e, ast.Name) and e.id in TAG_OF_PYTYPE:
                 py.append(e.id)
             elif isinstance(e, ast.Attribute) and isinstance(e.value, ast.Name) and e.value.id == "np" and e.attr in NUMPY_TAG:
@@ -328,7 +341,10 @@ def type_tables(maps_tree):
         for n in npy:
             if NUMPY_TAG[n] not in [TAG_OF_PYTYPE[p] for p in py]:
                 fail(key, "cast table lists np.%s without its Python type" % n)
-        cast[KIND_OF_CLASS[key.id]] = list(dict.fromkeys(TAG_OF_PYTYPE[p] for p in py))
+        # the table is only ever used through `in`: the tags are emitted in one fixed order, so that reordering or
+        # regrouping the tuple in the source regenerates the same file
+        tags = set(TAG_OF_PYTYPE[p] for p in py)
+        cast[KIND_OF_CLASS[key.id]] = [t for t in ("TgBool", "TgInt", "TgFloat") if t in tags]
     d = find_assign(maps_tree, "VARIABLE_TYPE_MAP")
     if not isinstance(d, ast.Dict):
         raise Untranslatable("VARIABLE_TYPE_MAP is not a dict literal")
